@@ -456,11 +456,38 @@ func (r *c05Runner) setValidatorsTx(set []int) string {
 	return r.nd.NewTx().SetValidators(r.addrs(set)...).SetTimestamp(c05TxSerial).String()
 }
 
-func (r *c05Runner) startChain(t []string) string {
+// waitTx waits until the transaction of the block just finalized is visible in the locator
+// bucket, which is what the fixture's transaction pool is filtered against.
+func (r *c05Runner) waitTx() {
+	if len(r.t.errs) > 0 {
+		return
+	}
+	tx, err := r.nd.LastBlock.NormalTransactions().Get(0)
+	if err != nil {
+		return
+	}
+	bk, err := r.nd.Chain.Database().GetBucket(db.TransactionLocatorByHash)
+	if err != nil {
+		return
+	}
+	for i := 0; i < 500; i++ {
+		if bs, err := bk.Get(tx.ID()); err == nil && bs != nil {
+			return
+		}
+		time.Sleep(5 * time.Millisecond)
+	}
+}
+
+func (r *c05Runner) startChain(t []string, o *Oracle) string {
 	defer func() {
 		if e := recover(); e != nil {
 			if os.Getenv("VERIF_DEBUG") != "" {
 				fmt.Fprintf(os.Stderr, "c05 chain: %v %v\n%s\n", e, r.t.errs, debug.Stack())
+			}
+			if r.t != nil {
+				msg := strings.Join(strings.Fields(strings.Join(r.t.errs, " ")), " ")
+				o.Check(!strings.Contains(msg, "bad voter"), "c05-certificate-verified-against-wrong-validator-set",
+					"building genesis(A)-b1-b2-b3 with certificates of the designated voters (NextValidators of the block two below) fails: %.300s", msg)
 			}
 			panic(e)
 		}
@@ -500,14 +527,24 @@ func (r *c05Runner) startChain(t []string) string {
 		// requested in block k shows in NextValidators(block k+1): with the change to B sent in b1 and
 		// to C in b2: NextValidators(g) = NextValidators(b1) = A, NextValidators(b2) = B, NextValidators(b3) = C.
 		r.nd.ProposeFinalizeBlockWithTX(consensus.NewEmptyCommitVoteList(), r.setValidatorsTx(r.sets[1]))
+		r.waitTx()
 		b1 := r.nd.LastBlock
 		r.nd.ProposeFinalizeBlockWithTX(r.cert(r.sets[0], b1.Height(), 0, b1.ID(), b1.Timestamp()+1), r.setValidatorsTx(r.sets[2]))
+		r.waitTx()
 		r.b2 = r.nd.LastBlock
 		r.nd.ProposeFinalizeBlockWithTX(r.cert(r.sets[0], r.b2.Height(), 0, r.b2.ID(), r.b2.Timestamp()+1), r.setValidatorsTx(r.sets[3]))
+		r.waitTx()
 		r.b3 = r.nd.LastBlock
 	})
 	if len(r.t.errs) > 0 {
-		return "harness-error:chain:" + r.t.errs[0]
+		msg := strings.Join(strings.Fields(strings.Join(r.t.errs, " ")), " ")
+		// the chain is built with certificates signed by the designated voters of each block
+		o.Check(!strings.Contains(msg, "bad voter"), "c05-certificate-verified-against-wrong-validator-set",
+			"building genesis(A)-b1-b2-b3 with certificates of the designated voters (NextValidators of the block two below) fails: %.300s", msg)
+		if len(msg) > 200 {
+			msg = msg[:200]
+		}
+		return "harness-error:chain:" + msg
 	}
 	r.nv = [][]int{r.sets[0], r.sets[0], r.sets[1], r.sets[2]}
 	for h, set := range r.nv {
@@ -521,25 +558,40 @@ func (r *c05Runner) startChain(t []string) string {
 			}
 		}
 	}
-	// template of a valid child of b3 (certificate by the designated voters NextValidators(b2))
+	// template of a valid child of b3 (certificate by the designated voters NextValidators(b2)).
+	// The fixture's transaction pool is filtered against the locator database when a block is
+	// finalized; until that write is visible a proposal may carry b3's transaction again, so the
+	// template is re-proposed until it has no transactions.
 	var bc module.BlockCandidate
-	var err, cbErr error
-	c05Quiet(func() {
-		bc, err, cbErr = test.ProposeBlock(r.nd.BM, r.b3.ID(), r.cert(r.nv[2], r.b3.Height(), 0, r.b3.ID(), r.b3.Timestamp()+1))
-	})
-	if err != nil || cbErr != nil {
-		return fmt.Sprintf("harness-error:template:%v %v", err, cbErr)
-	}
-	var hb, bb bytes.Buffer
-	if bc.MarshalHeader(&hb) != nil || bc.MarshalBody(&bb) != nil {
-		return "harness-error:marshal"
-	}
-	r.hf, r.bf = new(block.V2HeaderFormat), new(block.V2BodyFormat)
-	if _, err := codec.BC.UnmarshalFromBytes(hb.Bytes(), r.hf); err != nil {
-		return "harness-error:hf"
-	}
-	if _, err := codec.BC.UnmarshalFromBytes(bb.Bytes(), r.bf); err != nil {
-		return "harness-error:bf"
+	for try := 0; ; try++ {
+		var err, cbErr error
+		c05Quiet(func() {
+			bc, err, cbErr = test.ProposeBlock(r.nd.BM, r.b3.ID(), r.cert(r.nv[2], r.b3.Height(), 0, r.b3.ID(), r.b3.Timestamp()+1))
+		})
+		if err != nil || cbErr != nil {
+			o.Check(!strings.Contains(fmt.Sprint(err, cbErr), "bad voter"), "c05-certificate-verified-against-wrong-validator-set",
+				"proposing on b3 with the certificate of its designated voters %v fails: %v %v", r.nv[2], err, cbErr)
+			return fmt.Sprintf("harness-error:template:%v %v", err, cbErr)
+		}
+		var hb, bb bytes.Buffer
+		if bc.MarshalHeader(&hb) != nil || bc.MarshalBody(&bb) != nil {
+			return "harness-error:marshal"
+		}
+		r.hf, r.bf = new(block.V2HeaderFormat), new(block.V2BodyFormat)
+		if _, err := codec.BC.UnmarshalFromBytes(hb.Bytes(), r.hf); err != nil {
+			return "harness-error:hf"
+		}
+		if _, err := codec.BC.UnmarshalFromBytes(bb.Bytes(), r.bf); err != nil {
+			return "harness-error:bf"
+		}
+		if len(r.bf.NormalTransactions) == 0 && len(r.bf.PatchTransactions) == 0 {
+			break
+		}
+		bc.Dispose()
+		if try > 200 {
+			return "harness-error:template-has-transactions"
+		}
+		time.Sleep(10 * time.Millisecond)
 	}
 	bc.Dispose()
 	return "ok"
@@ -882,7 +934,7 @@ func (r *c05Runner) Step(t []string, o *Oracle) string {
 		return r.stepPB(t, o)
 	}
 	if len(t) == 5 && t[0] == "chain" {
-		return r.startChain(t)
+		return r.startChain(t, o)
 	}
 	if len(t) >= 2 && t[0] == "imp" {
 		return r.stepImp(t, o)
